@@ -78,3 +78,8 @@ Definition converted (o : ropts) (it : sitem) : bool :=
 
 Definition node_of (nodes : list (list Z)) (z : Z) : Z :=
   match node_idx (print_Z z) nodes 0 with Some k => k | None => -1 end.
+
+Inductive sublist {A : Type} : list A -> list A -> Prop :=
+| sl_nil : sublist [] []
+| sl_skip x l1 l2 : sublist l1 l2 -> sublist l1 (x :: l2)
+| sl_keep x l1 l2 : sublist l1 l2 -> sublist (x :: l1) (x :: l2).
